@@ -736,7 +736,7 @@ def run(tier: str, seed: int) -> dict:
                       "right": case["right"], "rmsk": case["rmsk"],
                       "negative_quarter_planes": info["negfrac"], "largest_region": info["maxsize"]}
             sampled4 += 1
-        elif info["nontrivial"] and sampled < 3 and rnd in (0, 3, 8):
+        elif info["nontrivial"] and sampled < 2 and rnd in (0, 3, 8):  # (5 samples kept: 2 kernels, 2 + 1 volumes)
             sample = {"kind": "agg", "shape": [n0, n1], "offset": offset, "subpix": subpix, "distance": distance,
                       "intensity": intensity, "disp": [case["dmin"], case["dmax"]],
                       "masks": [case["lmsk"] is not None, case["rmsk"] is not None],
